@@ -4,6 +4,7 @@ import (
 	"context"
 	"fmt"
 	"net/http"
+	"strings"
 
 	"github.com/thushan/olla/internal/adapter/registry"
 	"github.com/thushan/olla/internal/core/constants"
@@ -78,7 +79,9 @@ func (a *Application) providerProxyHandler(w http.ResponseWriter, r *http.Reques
 
 	// The proxy needs to know which prefix to strip before forwarding.
 	// This mimics the behaviour of the main router for consistency.
-	providerPrefix := getProviderPrefix(providerType)
+	// Use the spelling the client used (e.g. /olla/lmstudio), the normalised name
+	// (lm-studio) would not match the request path and nothing would be stripped.
+	providerPrefix := getProviderPrefix(rawProviderSegment(r.URL.Path))
 	ctx = context.WithValue(ctx, constants.ContextRoutePrefixKey, providerPrefix)
 	r = r.WithContext(ctx)
 
@@ -106,6 +109,16 @@ func (a *Application) providerProxyHandler(w http.ResponseWriter, r *http.Reques
 	if err != nil {
 		a.handleProxyError(w, err)
 	}
+}
+
+// rawProviderSegment returns the provider part of /olla/<provider>/... exactly as
+// it appears in the request path.
+func rawProviderSegment(path string) string {
+	segment := strings.TrimPrefix(path, constants.DefaultOllaProxyPathPrefix)
+	if idx := strings.Index(segment, constants.DefaultPathPrefix); idx != -1 {
+		segment = segment[:idx]
+	}
+	return segment
 }
 
 // getProviderEndpoints returns only endpoints matching the requested provider type.
